@@ -25,6 +25,18 @@ fn direction_rule(g: &fn_graph::FnGraph<Acc>, user_edges: usize, desc: &str) {
             std::process::exit(1);
         }
     }
+    // C12: no Data edge repeats an ordering implied by the other edges: without it its endpoints must be disconnected
+    let raw = g.graph.raw_edges();
+    let n = g.graph.node_count();
+    let mut adj: Vec<Vec<(usize, usize)>> = vec![vec![]; n];
+    for (k, e) in raw.iter().enumerate() { adj[e.source().index()].push((e.target().index(), k)); }
+    for (k, e) in raw.iter().enumerate().skip(user_edges) {
+        let (s, t) = (e.source().index(), e.target().index());
+        let mut seen = vec![false; n];
+        let mut st = vec![s];
+        while let Some(x) = st.pop() { if seen[x] { continue; } seen[x] = true; for &(y, ek) in &adj[x] { if ek != k { st.push(y); } } }
+        if seen[t] { println!("VIOLATION (C12: Data edge {s}->{t} repeats an ordering already implied by the other edges): {desc}"); std::process::exit(1); }
+    }
 }
 
 /// child mode: build a deep chain on a thread with a small stack (a build whose stack use grows with the depth of the graph
@@ -137,8 +149,11 @@ fn main() {
     // machine word has bits): the same static oracles on (a) 300 functions without user edges where function i writes
     // slot (i/2)%4 and reads slot (i/2+1)%4, (b) a batch job over 70 tables (load_i writes table i, check_i reads tables
     // i and i+1), (c) 300 writers of one type
-    for family in 0..3 {
+    for family in 0..4 {
         let accs: Vec<Acc> = match family {
+            // (d) 5200 functions of which only the first three touch data (writer, reader, writer of one type: the third is ordered
+            // behind the first through the second)
+            3 => (0..5200).map(|i| match i { 0 | 2 => Acc { id: i, reads: vec![], writes: vec![0] }, 1 => Acc { id: i, reads: vec![0], writes: vec![] }, _ => Acc { id: i, reads: vec![], writes: vec![] } }).collect(),
             0 => (0..300).map(|i| Acc { id: i, reads: vec![((i / 2 + 1) % 4) as u8], writes: vec![((i / 2) % 4) as u8] }).collect(),
             1 => (0..140).map(|i| if i < 70 { Acc { id: i, reads: vec![], writes: vec![i as u8] } } else { let t = i - 70; Acc { id: i, reads: vec![t as u8, ((t + 1) % 70) as u8], writes: vec![] } }).collect(),
             _ => (0..300).map(|i| Acc { id: i, reads: vec![], writes: vec![0] }).collect(),
@@ -155,6 +170,16 @@ fn main() {
             if e.weight != Edge::Data || !conflict(&accs[s_], &accs[t_]) { println!("VIOLATION (C06/C11: built edge {s_}->{t_} {:?} does not join two functions with conflicting data access: {:?} vs {:?}): {desc}", e.weight, (&accs[s_].reads, &accs[s_].writes), (&accs[t_].reads, &accs[t_].writes)); std::process::exit(1); }
         }
         // reachability closure by positions in a topological order of the built graph (edges go from lower to higher rank / id)
+        if n > 1000 {
+            // very large family: only the functions with data access matter for the ordering oracle
+            let mut adj: Vec<Vec<usize>> = vec![vec![]; n];
+            for e in raw { adj[e.source().index()].push(e.target().index()); }
+            let with_access: Vec<usize> = (0..n).filter(|&i| !accs[i].reads.is_empty() || !accs[i].writes.is_empty()).collect();
+            let reach1 = |a: usize, b2: usize| { let mut seen = vec![false; n]; let mut st = vec![a]; while let Some(x) = st.pop() { if x == b2 { return true; } if seen[x] { continue; } seen[x] = true; st.extend(adj[x].iter().copied()); } false };
+            for &i in &with_access { for &j in &with_access { if i < j && conflict(&accs[i], &accs[j]) && !reach1(i, j) && !reach1(j, i) { println!("VIOLATION (C01/C11: conflicting functions {i} and {j} are not ordered in the built graph): {desc}"); std::process::exit(1); } } }
+            direction_rule(&g, 0, &desc);
+            continue;
+        }
         let mut reachable: Vec<Vec<bool>> = vec![vec![false; n]; n];
         let mut order: Vec<usize> = (0..n).collect();
         order.sort_by_key(|&i| (g.ranks()[i].0, i));
